@@ -373,6 +373,9 @@ def diff_results(a, b, exact=True):
                     sel = ~np.isnan(np.asarray(a[t][mk], dtype=float)) & ~np.isnan(np.asarray(b[t][mk], dtype=float))
                 else:
                     sel = np.zeros(len(x), bool)
+                if key == "cause_index" and "cause_element" in a[t] and "cause_element" in b[t]:
+                    # never assigned in both (cause_element still None): cause_index is uninitialised memory
+                    sel = sel & ~np.array([p is None and q is None for p, q in zip(a[t]["cause_element"], b[t]["cause_element"])])
                 bad = [int(j) for j in np.where(sel)[0] if not (x[j] == y[j])]
             elif x.dtype.kind == "f" or y.dtype.kind == "f":
                 xf, yf = x.astype(float), y.astype(float)
